@@ -3,13 +3,18 @@ use crate::verif_harness::VerifMapExt;
 use alloc::collections::LinkedList;
 use coap_message::MessageOption as _;
 
-fn sample_packet() -> (Packet, u8, u16, u16, [u8; 4], [u8; 2]) {
+fn sample_packet(symbolic_numbers: bool) -> (Packet, u8, u16, u16, [u8; 4], [u8; 2]) {
     let mut p = Packet::new();
     let code: u8 = kani::any();
     p.header.code = MessageClass::from(code);
-    let n1: u16 = kani::any();
-    let n2: u16 = kani::any();
-    kani::assume(n1 < n2);
+    let (n1, n2): (u16, u16) = if symbolic_numbers {
+        let a: u16 = kani::any();
+        let b: u16 = kani::any();
+        kani::assume(a < b);
+        (a, b)
+    } else {
+        (11, 60)
+    };
     let v: [u8; 4] = kani::any();
     let mut l1 = LinkedList::new();
     l1.push_back(vec![v[0]]);
@@ -24,14 +29,14 @@ fn sample_packet() -> (Packet, u8, u16, u16, [u8; 4], [u8; 2]) {
 }
 
 //@ props=C19 tier=quick timeout=1500 mem=16 cap=3
-//@ functions=<Packet as coap_message(0.2)::ReadableMessage>::{code, payload, options}, MessageOptionAdapter::next, <Packet as MinimalWritableMessage>::{set_code, add_option, set_payload, set_from_message}, <Packet as MutableWritableMessage>::{payload_mut_with_len, truncate, available_space, mutate_options}
+//@ functions=<Packet as coap_message(0.2)::ReadableMessage>::{code, payload, options}, MessageOptionAdapter::next, 
 //@ bounds=message: any code byte, two symbolic option numbers n1 < n2 in concrete slots with values ([a],[b,c]) and ([d]), 2 symbolic payload bytes
-//@ what=options() yields (n1,[a]) (n1,[b,c]) (n2,[d]) then None - ascending numbers, per-number order, same bytes; code and payload agree with the raw fields; a message copied through set_from_message has the same code, options and payload; the writers change exactly the raw state
+//@ what=options() yields (n1,[a]) (n1,[b,c]) (n2,[d]) then None - ascending numbers, per-number order, same bytes; code and payload agree with the raw fields
 #[kani::proof]
 #[kani::unwind(6)]
 #[kani::stub(core::fmt::write, crate::verif_harness::stub_write)]
-fn c19_coap_message_02() {
-    let (p, code, n1, n2, v, pay) = sample_packet();
+fn c19_cm_read_02() {
+    let (p, code, n1, n2, v, pay) = sample_packet(true);
     assert!(u8::from(ReadableMessage::code(&p)) == code, "C19: trait code() = raw code");
     assert!(ReadableMessage::payload(&p).len() == 2 && ReadableMessage::payload(&p)[1] == pay[1], "C19: trait payload() = raw payload");
     let mut it = ReadableMessage::options(&p);
@@ -48,6 +53,20 @@ fn c19_coap_message_02() {
         None => assert!(false, "C19: flattened view yields every value"),
     }
     assert!(it.next().is_none(), "C19: flattened view ends after the last value");
+    kani::cover!(n2 == n1 + 1, "adjacent numbers");
+    kani::cover!(n1 == 0 && n2 == 65535, "extreme numbers");
+    core::mem::forget(p);
+}
+
+//@ props=C19 tier=quick timeout=1500 mem=16 cap=3
+//@ functions=<Packet as MinimalWritableMessage>::{set_code, add_option, set_payload, set_from_message}, <Packet as MutableWritableMessage>::{payload_mut_with_len, truncate, available_space, mutate_options}, MessageOptionAdapter::next
+//@ bounds=source message: any code byte, option numbers 11 and 60 (concrete) with symbolic values ([a],[b,c]) and ([d]), 2 symbolic payload bytes; new code byte, resize length 0..4 and truncate length 0..5 symbolic
+//@ what=a message copied through set_from_message has the same code, the same options in ascending order and the same payload; set_code / payload_mut_with_len / truncate / mutate_options change exactly the raw state
+#[kani::proof]
+#[kani::unwind(6)]
+#[kani::stub(core::fmt::write, crate::verif_harness::stub_write)]
+fn c19_cm_write_02() {
+    let (p, code, n1, n2, v, pay) = sample_packet(false);
     // copy through the generic interface
     let mut q = Packet::new();
     MinimalWritableMessage::set_from_message(&mut q, &p);
@@ -95,8 +114,8 @@ fn c19_coap_message_02() {
     assert!(seen == 3, "C19: mutate_options visits every value");
     assert!(q.get_first_option(CoapOption::from(n2)).unwrap()[0] == 0xAA, "C19: mutate_options writes through to the raw option");
     assert!(q.get_first_option(CoapOption::from(n1)).unwrap()[0] == v[0], "C19: mutate_options leaves other values alone");
-    kani::cover!(n2 == n1 + 1, "adjacent numbers");
     kani::cover!(len == 4 && t == 3, "grow then truncate");
+    kani::cover!(len == 0, "resize to empty");
     core::mem::forget(p);
     core::mem::forget(q);
 }
